@@ -200,7 +200,7 @@ void Device::slice_bw(
   const Shape &sy = gy.shape();
   const Shape &sx = gx.shape();
   if (!sy.has_same_loo_dims(sx, dim) || !sy.has_compatible_batch(sx) ||
-      offset + sy[dim] > sx[dim]) {
+      static_cast<std::uint64_t>(offset) + sy[dim] > sx[dim]) {
     PRIMITIV_THROW_ERROR(
         "Attempted to add gradients with shape "
         << sy.to_string() << ", dim " << dim << ", offset " << offset
@@ -675,7 +675,8 @@ void Device::batch_slice_bw(
   CHECK_DEVICE(gx);
   const Shape &sy = gy.shape();
   const Shape &sx = gx.shape();
-  if (!sy.has_same_dims(sx) || offset + sy.batch() > sx.batch()) {
+  if (!sy.has_same_dims(sx) ||
+      static_cast<std::uint64_t>(offset) + sy.batch() > sx.batch()) {
     PRIMITIV_THROW_ERROR(
         "Attempted to add gradients with shape "
         << sy.to_string() << ", batch offset " << offset
